@@ -700,6 +700,9 @@ func genP(g *rng, w *bufio.Writer) {
 	if g.intn(3) == 0 {
 		n = int64(g.intn(700))
 	}
+	if g.intn(8) == 0 { // large payloads: around page / buffer sizes and well beyond
+		n = g.pick([]int64{4095, 4096, 4097, 5000, 8191, 8192, 8193, 10000, 16385, 20001})
+	}
 	runP(w, int(n))
 	dist["P"]++
 }
